@@ -792,6 +792,11 @@ fn ty_diagnostic_message(
         hir_ty::TyDiagnosticKind::DiscriminantUsedAlready { value } => {
             format!("you've already used `{value}` as a discriminant")
         }
+        hir_ty::TyDiagnosticKind::DiscriminantTooBig { value } => {
+            format!(
+                "the discriminant `{value}` is too big for `u8`, which can only hold up to 255"
+            )
+        }
         hir_ty::TyDiagnosticKind::ExternGlobalMissingTy => {
             "external globals must have type annotations".to_string()
         }
